@@ -221,7 +221,7 @@ theorem guard_holds_for_typical (c : Ctx) (hR : 0 < c.p.voteRate) (s : St) (gp :
       rw [if_pos h1', h2', movedWeight_of_nonneg c hR _ h3']
     · rfl
   | transfer _ _ => rfl
-  | register _ _ _ _ => rfl
+  | register _ _ _ _ _ => rfl
   | setSigners _ _ _ => rfl
   | box => rfl
   | other => rfl
@@ -271,7 +271,7 @@ theorem fresh_untouched_aux (c : Ctx) (s0 : St) (V : List Nat) : ∀ (txs : List
         | box => exact absurd hk2 hnb
         | transfer _ _ => rfl
         | vote _ => rfl
-        | register _ _ _ _ => rfl
+        | register _ _ _ _ _ => rfl
         | setSigners _ _ _ => rfl
         | other => rfl
       cases ha : applyTx c s gp t with
@@ -290,7 +290,7 @@ theorem fresh_untouched_aux (c : Ctx) (s0 : St) (V : List Nat) : ∀ (txs : List
             | box => exact absurd hk2 hnb
             | transfer _ _ => rfl
             | vote _ => rfl
-            | register _ _ _ _ => rfl
+            | register _ _ _ _ _ => rfl
             | setSigners _ _ _ => rfl
             | other => rfl
           rw [hex, List.all_cons, List.all_nil, Bool.and_true]
@@ -307,7 +307,7 @@ theorem fresh_untouched_aux (c : Ctx) (s0 : St) (V : List Nat) : ∀ (txs : List
             rw [Bool.and_eq_true, Bool.and_eq_true]
             exact ⟨⟨k1, decide_eq_true (hinv _ k2')⟩, k3⟩
           | transfer _ _ => rfl
-          | register _ _ _ _ => rfl
+          | register _ _ _ _ _ => rfl
           | setSigners _ _ _ => rfl
           | box => rfl
           | other => rfl
